@@ -108,82 +108,29 @@ verif_harness! {
     }
 }
 
-//@ harness name=arm_pseudocode_order prop=C02,C17 tier=quick bits=256 est=60 variants=aes:armv8 desc="model lemma: the Arm-ARM operation order AESE = SubBytes(ShiftRows(d ^ k)), AESD = InvSubBytes(InvShiftRows(d ^ k)) equals the model's concrete functions (FIPS-197 ShiftRows(SubBytes(.)), InvShiftRows(InvSubBytes(.)) of the oracle) through the intrinsic entry points; AESMC/AESIMC are the oracle's MixColumns/InvMixColumns and mutually inverse; AESE+AESMC+EOR is the FIPS-197 round; all 128-bit d, k"
-verif_harness! {
-    name: arm_pseudocode_order,
-    bytes: 32,
-    unwind: 20,
-    prop: |inp| {
-        use crate::verif_arch::aarch64::*;
-        va::set_concrete(true);
-        let d: [u8; 16] = take(inp, 0);
-        let k: [u8; 16] = take(inp, 16);
-        let x = ra::xor(&d, &k);
-        let mut out = [0u8; 16];
-        unsafe {
-            let vd = vld1q_u8(d.as_ptr());
-            let vk = vld1q_u8(k.as_ptr());
-            vst1q_u8(out.as_mut_ptr(), vaeseq_u8(vd, vk));
-            vcheck!(out == ra::sub_bytes_with(&ra::shift_rows(&x), &ra::sbox));
-            vst1q_u8(out.as_mut_ptr(), vaesdq_u8(vd, vk));
-            vcheck!(out == ra::sub_bytes_with(&ra::inv_shift_rows(&x), &ra::inv_sbox));
-            vst1q_u8(out.as_mut_ptr(), vaesmcq_u8(vd));
-            vcheck!(out == ra::mix_columns(&d));
-            vst1q_u8(out.as_mut_ptr(), vaesimcq_u8(vaesmcq_u8(vd)));
-            vcheck!(out == d);
-            vst1q_u8(out.as_mut_ptr(), vaesimcq_u8(vd));
-            vcheck!(out == ra::inv_mix_columns(&d));
-            // AESE(d, 0); AESMC; EOR k  ==  FIPS-197 round on d with round key k
-            vst1q_u8(out.as_mut_ptr(), veorq_u8(vaesmcq_u8(vaeseq_u8(vd, vdupq_n_u8(0))), vk));
-            vcheck!(out == ra::xor(&ra::round_core(&d), &k));
-            vst1q_u8(out.as_mut_ptr(), veorq_u8(vaesimcq_u8(vaesdq_u8(vd, vdupq_n_u8(0))), vk));
-            vcheck!(out == ra::xor(&ra::inv_round_core(&d), &k));
+// Model lemmas: the Arm ARM writes AESE as AESSubBytes(AESShiftRows(d EOR k)) and AESD as AESInvSubBytes(AESInvShiftRows(
+// d EOR k)); the model's concrete meaning is the oracle's last_core / inv_last_core (the opposite order).  Through the
+// intrinsic entry points (LD1, AESE/AESD, ST1) both orders agree.  (AESMC / AESIMC are by definition the oracle's MixColumns /
+// InvMixColumns; that these are mutually inverse and that InvMixColumns is linear is c02_ni::fips_eqinv_lemmas.)
+macro_rules! arm_order {
+    ($name:ident, $insn:ident, $shift:path, $sb:path) => {
+        verif_harness! {
+            name: $name,
+            bytes: 32,
+            unwind: 20,
+            prop: |inp| {
+                use crate::verif_arch::aarch64::*;
+                va::set_concrete(true);
+                let d: [u8; 16] = take(inp, 0);
+                let k: [u8; 16] = take(inp, 16);
+                let mut out = [0u8; 16];
+                unsafe { vst1q_u8(out.as_mut_ptr(), $insn(vld1q_u8(d.as_ptr()), vld1q_u8(k.as_ptr()))) };
+                Some(out == ra::sub_bytes_with(&$shift(&ra::xor(&d, &k)), &$sb))
+            }
         }
-        Some(true)
-    }
+    };
 }
-
-// ---- anchor: FIPS-197 Appendix C.1 / C.3 vectors through the real ARMv8 code with the concrete instruction model.
-// Not a deciding step (one concrete run each): it pins the model + byte-order conventions to the standard's own numbers.
-//@ harness name=arm_fips_vectors prop=C02 tier=quick bits=0 stub=1 est=60 variants=aes:armv8 desc="anchor (concrete run, not a deciding step): FIPS-197 Appendix C.1 (AES-128) and C.3 (AES-256) example vectors through Aes128/Aes256 on the ARMv8 arm with the concrete instruction model, real sub_word, both directions"
-verif_harness! {
-    name: arm_fips_vectors,
-    bytes: 1,
-    unwind: 70,
-    stubs: [
-        (core::arch::x86_64::__cpuid, ni_model::m_cpuid),
-        (core::arch::x86_64::__cpuid_count, ni_model::m_cpuid_count),
-        (core::arch::x86_64::_xgetbv, ni_model::m_xgetbv)
-    ],
-    prop: |inp| {
-        ni_model::set_cpu(true);
-        va::set_concrete(true);
-        let mut key = [0u8; 32];
-        let mut pt = [0u8; 16];
-        let mut i = 0;
-        while i < 32 {
-            key[i] = i as u8;
-            i += 1;
-        }
-        i = 0;
-        while i < 16 {
-            pt[i] = (0x11 * i) as u8;
-            i += 1;
-        }
-        let ct128: [u8; 16] = [0x69, 0xc4, 0xe0, 0xd8, 0x6a, 0x7b, 0x04, 0x30, 0xd8, 0xcd, 0xb7, 0x80, 0x70, 0xb4, 0xc5, 0x5a];
-        let ct256: [u8; 16] = [0x8e, 0xa2, 0xb7, 0xca, 0x51, 0x67, 0x45, 0xbf, 0xea, 0xfc, 0x49, 0x90, 0x4b, 0x49, 0x60, 0x89];
-        let k128: [u8; 16] = take(&key, 0);
-        let c = crate::Aes128::new(&k128.into());
-        let mut b = pt.into();
-        c.encrypt_block(&mut b);
-        vcheck!(b.0 == ct128);
-        c.decrypt_block(&mut b);
-        vcheck!(b.0 == pt);
-        let c = crate::Aes256::new(&key.into());
-        let mut b = pt.into();
-        c.encrypt_block(&mut b);
-        vcheck!(b.0 == ct256);
-        c.decrypt_block(&mut b);
-        Some(b.0 == pt)
-    }
-}
+//@ harness name=arm_aese_order prop=C02,C17 tier=quick bits=256 est=60 variants=aes:armv8 desc="model lemma: vaeseq_u8(d, k) of the concrete instruction model, loaded and stored through vld1q_u8/vst1q_u8, equals the Arm-ARM definition SubBytes(ShiftRows(d ^ k)) with the FIPS-197 S-box and ShiftRows of the oracle; all 128-bit d, k"
+arm_order!(arm_aese_order, vaeseq_u8, ra::shift_rows, ra::sbox);
+//@ harness name=arm_aesd_order prop=C02,C17 tier=quick bits=256 est=60 variants=aes:armv8 desc="model lemma: vaesdq_u8(d, k) of the concrete instruction model equals the Arm-ARM definition InvSubBytes(InvShiftRows(d ^ k)); all 128-bit d, k"
+arm_order!(arm_aesd_order, vaesdq_u8, ra::inv_shift_rows, ra::inv_sbox);
